@@ -1459,7 +1459,7 @@ class Lower:
         init = [c for c in d.get('inner', []) if 'kind' in c and ('valueCategory' in c or c['kind'] == 'InitListExpr')]
         q = self.tu.qualname(decl) if decl.get('_p') else decl.get('name')
         par = decl.get('_p') or {}
-        if par.get('kind') in REC_KINDS and not self.tu.in_repo(par):
+        if par.get('kind') in REC_KINDS and not self.tu.in_repo(par) and self.rec_alias_of(par) is None:
             nm = 'g_' + san(self.tu.qualname(par)) + '_' + decl['name']          # static member of a library class (e.g. std::string::npos)
         elif par.get('kind') in REC_KINDS:
             nm = 'g_' + self.struct_for(par)[2:] + '_' + decl['name']
